@@ -4,6 +4,7 @@ seed="$1"; shift
 cd /verif
 git -C /repo diff --quiet || { echo "/repo has local changes; refusing"; exit 2; }
 git -C /repo apply "/verif/seeded/$seed/patch.diff" || exit 3
+if grep -q "negative control" "/verif/seeded/$seed/meta.json" 2>/dev/null; then echo "NOTE seed=$seed is a negative control: the checks must stay silent"; fi
 for p in "$@"; do
   out=$(./check "$p" quick 2>&1); rc=$?
   v=$(echo "$out" | grep -c '^VIOLATION')
